@@ -434,7 +434,7 @@ def diff_dumps(first: Any, second: Any, path: str = "", limit: int = 6) -> list:
 
 def _short(value: Any) -> Any:
     text = repr(value)
-    return value if len(text) <= 300 else text[:300] + "..."
+    return value if len(text) <= 4000 else text[:4000] + "..."
 
 
 # --------------------------------------------------------------------------- building
@@ -879,8 +879,9 @@ def _domains(draw, gene: dict, aminos: int, gindex: int, want_modular: bool) -> 
                         "tool": tool, "domain": draw(st.sampled_from([None, "p450", "ketoacyl-synt"])),
                         "label": draw(st.sampled_from([None, "p450"])), "database": draw(st.sampled_from([None, "35.0"])),
                         "id": f"{tool}_{name}_{dindex:04d}",
-                        "go": draw(st.sampled_from([None, None, {"GO:0004871": "signal transducer activity"},
-                                                    {"GO:0016020": "membrane", "GO:0005215": "transporter activity"}]))})
+                        "go": None if draw(_one_in(6)) else draw(st.sampled_from([
+                            {"GO:0004871": "signal transducer activity"},
+                            {"GO:0016020": "membrane", "GO:0005215": "transporter activity"}]))})
         else:
             dom.update({"tool": draw(st.sampled_from(["nrps_pks_domains", "lanthipeptides"])),
                         "label": draw(st.sampled_from(["NRPS-A_a3", "C1_dual_004-017", None])),
@@ -973,7 +974,7 @@ def _gene_details(draw, gene: dict, gindex: int, circular: bool, modular_bias: b
         function = draw(st.sampled_from(["OTHER", "ADDITIONAL", "TRANSPORT", "REGULATORY", "RESISTANCE"]))
         tool = draw(st.sampled_from(["smcogs", "rule-based-clusters", "resist", "t2pks", "mite", "halogenases"]))
         product = draw(st.sampled_from([None, None, None, "NRPS"]))
-        pool = DESCRIPTIONS if draw(_one_in(12)) else PLAIN_DESCRIPTIONS
+        pool = DESCRIPTIONS if draw(_one_in(30)) else PLAIN_DESCRIPTIONS
         functions.append([function, tool, draw(st.sampled_from(pool)), product])
     gene["functions"] = functions
     secmet = []
@@ -987,7 +988,8 @@ def _gene_details(draw, gene: dict, gindex: int, circular: bool, modular_bias: b
     gene["nrps_type"] = draw(st.sampled_from(NRPS_TYPES)) if any(d["kind"] == "modular" for d in gene["domains"]) else None
     gene["prepeptide"] = None
     whole = loc_len(shifted(loc, codon_start)) % 3 == 0 and not any(gene["fuzzy"])
-    if aminos >= 3 and (not span or draw(_one_in(3))) and draw(_one_in(4 if whole else 24)):
+    plain = not span and loc["strand"] == 1
+    if aminos >= 3 and (plain or draw(_one_in(3))) and draw(_one_in(4 if whole else 24)):
         gene["prepeptide"] = draw(_prepeptide(aminos))
 
 
@@ -1200,7 +1202,7 @@ def record_specs(draw, *, max_len: int = 5000, max_genes: int = 8, max_protoclus
     n_subs = draw(st.sampled_from([0, 0, 1, 2, 3][:max_subregions + 2]))
     if n_protos + n_subs < min_areas:
         n_protos = min_areas - n_subs
-    allow_ties = draw(_one_in(10))
+    allow_ties = draw(_one_in(16))
     protos = draw(_protoclusters(genes, length, circular, n_protos, allow_ties))
     # defining genes: a CORE function with the product on the anchor genes, as rule detection leaves it
     for proto in protos:
